@@ -5,6 +5,10 @@ import XModel.ManagerC11
 # C03 — removing or replacing a definition leaves no trace
 The four indices are a function of the surviving tasks (`Index.Inv`), preserved by `register'` (fresh
 id) and `unregister'` (present id) — the functions `Manager.register` / `Manager.unregister` call.
+
+**Which tree.**  The model transcribes `/repo` as it stands now: the pinned commit plus the `fix:` commits recorded in
+`/verif/KNOWN_FINDINGS.json` (status `fixed`).  Where a theorem below rests on repaired code — `Index.unregister'` is the repaired walk over the tasks writing a dependency — it is false of
+the tree as first pinned; the witnesses are kept (`Index.pinned_unregister_stale` proves the first-pinned version violates the invariant).
 -/
 namespace Properties.C03
 open Index
